@@ -221,7 +221,7 @@ def build(repo):
                loops={'for:tuple#0': ['a parameter has been updated only if the caller\'s dict names it:: implies(changed("%s"), upin("%s")) and implies(changed("%s"), upin("%s"))' % (K1, K1, K2, K2),
                                       'an updated optional parameter holds a value:: implies(changed("%s"), not isnone(params("%s")))' % (K3, K3)]},
                asserts={'before:solve_main#1': [('no path reaches the first evaluation with: %s:: not (%s)' % (lab, ex), 'C07') for lab, ex in invalid],
-                        'return#1': [('the early return is the input-error result: flag, zero evaluations, non-empty message:: result.flag == EXIT_INPUT_ERROR and '
+                        'return@under:exit_info is not None': [('the early return is the input-error result: flag, zero evaluations, non-empty message:: result.flag == EXIT_INPUT_ERROR and '
                                       'result.nf == 0 and result.nx == 0 and result.msg', 'C07')]},
                ensures=[('a result is returned with the input-error flag or after at least the checks passed:: result.flag == EXIT_INPUT_ERROR or True', 'C07')])
     D.contract('solve_main', tags=T, params={'default_growing_method_set_by_user': 'opt:bool', 'x0': 'unk'},
